@@ -1240,6 +1240,8 @@ def run(ctx):
     bookkeeping_correspondence(ctx, par, fixed)
     views_search(ctx, par, fixed)
     shift_search(ctx, par, fixed)
+    from props import C06_gateobj
+    C06_gateobj.run_suites(ctx)
     ctx.trusted.append("QV.Model.Params is a hand model of Circuit.add/set_parameters/get_parameters/invert/copy bookkeeping, tied by exact correspondence on integer-valued histories (DriverC06.lean)")
     ctx.notes.append("bookkeeping: all gate sequences up to length 3 (4 thorough) over widths 1-4 x trainable/non-trainable/fixed plus random circuits over every parametrised class, histories of list/flat/dict updates (valid and refused), gets in 3 formats, invert, deep copy — exact integer comparison with the Lean model; "
                      "views: every parametrised class x 3 formats and random mixed circuits, 29 derived views after each of 1-3 updates vs a freshly built circuit (1e-10), derived circuits updated themselves, deep-copy isolation; "
